@@ -16,6 +16,11 @@ def DASH : UInt8 := 45
 def COMMA : UInt8 := 44
 def SPACE : UInt8 := 32
 
+/-- a position of a byte range: `u64::from_str` behind the test that the text does not start with `+` (fix for F40):
+digits only -/
+def parsePos (s : Bytes) : Option Nat :=
+  if s.head? = some 43 then none else parseU64 s
+
 /-- the closure in `sanitize_request` that reads the `range` header -/
 def parseRange (v : Bytes) : Option (Nat × Nat) :=
   if !v.all visibleAscii then none else
@@ -26,7 +31,7 @@ def parseRange (v : Bytes) : Option (Nat × Nat) :=
   | some sep =>
     match sliceGet v 6 sep, sliceGet v (sep + 1) v.length with
     | some a, some b =>
-      match parseU64 a, parseU64 b with
+      match parsePos a, parsePos b with
       | some x, some y => some (x, y)
       | _, _ => none
     | _, _ => none
